@@ -216,6 +216,9 @@ package didnuts
 //@   call append #4 requires [other-controllers-are-resolved-documents] isNilIface(ret(call resolve #1).2)
 //@        && same(arg(call resolve #1, 1), ref) && arg(call resolve #1, 0) == didResolver && arg(call resolve #1, 2) == metadata && arg(call resolve #1, 3) == depth
 //@        && same(arg(0), leaves) && len(arg(1)) == 1 && same(arg(1)[0], *ret(call resolve #1).0)
+// ... and nothing else ever becomes a controller: the controllers OF a controller are not controllers of the document
+// (the function resolves one level: it never descends into a resolved controller's own controller list)
+//@   ensures [controllers-of-controllers-are-not-controllers] !did(call resolveControllers #1) && !didCallWith("resolveControllers", 0, didResolver)
 
 // ---- C13: the rollback sweep can judge every pending change ----
 // A did:nuts DID the store has never seen (a create that stopped before the network transaction was
